@@ -171,6 +171,10 @@ class Enumerator:
         return out
 
     def splits(self, n, parts):
+        if parts == 0:
+            if n == 0:
+                yield ()
+            return
         if parts == 1:
             yield (n,)
             return
